@@ -450,11 +450,7 @@ func backendScen(c *Ctx) {
 		}
 	}
 	// C12.no-leak
-	nv := len(s.Violations)
-	world.Quiescence(s, n, world.QuiescenceOpts{})
-	for i := nv; i < len(s.Violations); i++ {
-		s.Violations[i].Clause = "C12.no-leak/" + s.Violations[i].Clause
-	}
+	world.Quiescence(s, n, world.QuiescenceOpts{}) // C12.no-leak: reservations, files (reported as C03/C04 clauses)
 	if lb := st.LeakedBodies(); len(lb) > 0 {
 		s.Violate("C12.no-leak", bk+"/response-body", "backend response bodies neither closed nor read to the end (each pins a connection): %v", lb)
 	}
